@@ -107,10 +107,12 @@ TEMPLATES: dict[str, str] = {
     "drop": "{{ d.a }}{{ d.b.c }}{% increment n %}{% for x in d.list %}{{ x }}{% cycle 1, 2 %}{% endfor %}{{ d.z }}{% assign q = d.a %}{{ q }}{% capture w %}{{ d.b.c }}{% endcapture %}{{ w }}",
     "with": "{% with v: 'shadow' %}{{ v }}{% endwith %}{{ v }}{{ xs | map: i => i | join: ',' }}{{ xs | where: i => i > 1 | size }}",
     "undefined": "{{ nosuch }}{{ v | default: 'd' }}{% if nosuch %}t{% else %}f{% endif %}{{ nosuch.deeper | size }}",
+    "brokenpartial": "{{ v }}{% render 'nosuchpartial__' %}{{ nosuch }}",
+    "brokenpartial2": "{% include 'inc' %}{% include 'nosuchpartial__' %}",
     "ifchanged": "{% for i in xs %}{% if forloop.first %}F{% endif %}{{ forloop.index }}{% endfor %}{% liquid\nassign z = v\necho z %}",
 }
 ROOTS = ["counters", "cycle", "offset", "capture", "macro", "macro2", "macro3", "macrorender", "renderblock", "babel", "striphtml", "child", "child2", "now", "translate",
-         "include", "render", "custom", "drop", "with", "undefined", "ifchanged"]
+         "include", "render", "custom", "drop", "with", "undefined", "ifchanged", "brokenpartial", "brokenpartial2"]
 
 
 # alternative texts for templates whose source is edited in the middle of a history
@@ -178,8 +180,12 @@ class World:
 
     def _env(self, e: str, loader):  # noqa: ANN001, ANN202
         from liquid2 import Environment
+        from liquid2 import StrictUndefined
+        from liquid2 import Undefined
 
-        env = Environment(loader=loader)
+        # environment B is configured with the strict undefined type (part of its configuration,
+        # so the fresh twin has it too): nothing that happens on it may relax or tighten that
+        env = Environment(loader=loader, undefined=StrictUndefined if e == "B" else Undefined)
         for act in self.cfg[e]:
             self._apply(env, act)
         return env
@@ -757,6 +763,18 @@ def run_shard(spec: dict[str, Any], ctx: Ctx) -> None:
                                     hist.append({"op": op, "env": e, "tpl": name, "data": make_data(rng), "how": "get_template"})
                             check_history(ctx, TEMPLATES, hist, caching, "fixtures")
                             ctx.count("configure_then_reload_histories")
+            # an analysis (or render) that fails midway, then renders on the same environment
+            for caching in (False, True):
+                for e in "AB":
+                    for bad in ("brokenpartial", "brokenpartial2"):
+                        for first in ("analyze", "render", "render_async"):
+                            hist = [{"op": "render", "env": e, "tpl": "undefined", "data": make_data(rng), "how": "get_template"},
+                                    {"op": first, "env": e, "tpl": bad, "data": make_data(rng), "how": "get_template"}]
+                            for name in ("undefined", "custom", "with", "undefined"):
+                                hist.append({"op": rng.choice(["render", "render_async"]), "env": e, "tpl": name,
+                                             "data": make_data(rng), "how": rng.choice(["get_template", "from_string"])})
+                            check_history(ctx, TEMPLATES, hist, caching, "fixtures")
+                            ctx.count("failed_step_then_render_histories")
         for _ in range(spec["per"]):
             hist = gen_history(rng, rng.randint(2, maxlen), ROOTS)
             check_history(ctx, TEMPLATES, hist, rng.random() < 0.5, "fixtures")
